@@ -33,6 +33,7 @@ RULE = (
     "return successive values of a script so the order is observable. Non-trivial: >= 2 convertible calls in the statement or one nested in any "
     "call, and the CB run stayed in the domain; distinct by sha1 of the AST"
 )
+RULE += ' Also: every slot is placed alone, inside THEN / ELSE branches taken on one of the two passes, and next to a second statement with temporaries of its own; slots for a whole-right-hand-side call with and without LET, PRINT operands starting with a unary operator, 10-14 calls in one statement, READ subscripts in programs with an empty DATA item. Static enumeration: every statement template of the grammar (C10 slot table + operand-free statements) with INT(A) / HEX$(A) operands in nine block contexts - no temporary read before its group assigns it, exactly one RUN per converted function.'
 ASSUMPTIONS = [
     "Color BASIC evaluates operands left to right, arguments before the call, the subscripts of an assignment target before its right-hand side",
     "a temporary is an identifier of the output that is neither the emitted identifier of a source variable (learnt by probing the tool) nor declared "
